@@ -54,7 +54,7 @@ pub struct Plan {
     pub cfg: RunCfg,
     pub len: usize,
     pub weights: [u32; 9],
-    pub shape_w: [u32; 6],
+    pub shape_w: [u32; 9],
     pub fams: Vec<usize>,
     pub share: u64,
     pub key_reuse: u64,
@@ -233,9 +233,9 @@ fn plan_inner(reg: &Registry, prop: Prop, rng: &mut Prng, lim: &Limits) -> Plan 
     if !any_detect {
         weights[K_EPOCH] = weights[K_EPOCH].min(1);
     }
-    let mut shape_w: [u32; 6] = match prop {
-        Prop::C04 => [2, 3, 3, 6, 8, 8],
-        _ => [4, 2, 2, 4, 3, 3],
+    let mut shape_w: [u32; 9] = match prop {
+        Prop::C04 => [2, 3, 3, 6, 8, 8, 3, 6, 6],
+        _ => [4, 2, 2, 4, 3, 3, 1, 2, 2],
     };
     for w in shape_w.iter_mut() {
         if rng.chance(1, 6) {
